@@ -67,6 +67,8 @@ def run_batch(prop, cfg, tier, verif_seed, nruns, workers, wall_cap, out=print):
     core.setup_imports()          # import once, children inherit by fork
     for sc in runmod.SCENARIOS[prop]:
         __import__(sc[1])
+    from . import pristine
+    pristine.ensure_zygote()      # before any run and before the workers are forked
     block = cfg.get("block", 4)
     blocks = [list(range(i, min(i + block, nruns))) for i in range(0, nruns, block)]
     agg = {"evaluations": 0, "discards": 0, "steps": 0, "nsched": 0, "deviating_runs": 0,
